@@ -185,6 +185,9 @@ mut("c07-wgs-alpha-one", "C07", "pybrops/breed/prot/sel/WeightedGenomicSelection
 mut("c07-gwgebv-power-sign", "C07", "pybrops/breed/prot/sel/prob/GeneralizedWeightedGenomicEstimatedBreedingValueSelectionProblem.py", "        gwgebv = Z_a.dot(u_a * numpy.power(tmp, -alpha))", "        gwgebv = Z_a.dot(u_a * numpy.power(tmp, alpha))", "favourable-allele frequency weights applied with the wrong sign of the exponent (all four encodings)", count=4)
 mut("c07-fafreq-unfavourable", "C07", "pybrops/model/gmod/DenseAdditiveLinearGenomicModel.py", "        out = numpy.where(mask, acount, maxfav - acount)\n\n        # for alleles with zero effect", "        out = numpy.where(mask, maxfav - acount, acount)\n\n        # for alleles with zero effect", "favourable allele counts taken from the unfavourable allele", count=2)
 mut("c07-embv-self-crosses", "C07", "pybrops/breed/prot/sel/ExpectedMaximumBreedingValueSelection.py", "unique_parents = self.unique_parents,", "unique_parents = False,", "EMBV cross map ignores unique_parents", count=4)
+mut("c07-realmate-weights-sqrt", "C07", CF + "RealMateSelectionConfiguration.py", "            numpy.arange(len(self.xconfig_decn)),\n            self.xconfig_decn,", "            numpy.arange(len(self.xconfig_decn)),\n            numpy.sqrt(self.xconfig_decn),", "mate-selection contribution weights flattened by a square root before sampling")
+mut("c07-mo-ignores-ndset-wt", "C07", "pybrops/breed/prot/sel/RealSelectionProtocol.py", "            score = self.ndset_wt * self.ndset_trans(", "            score = abs(self.ndset_wt) * self.ndset_trans(", "sign of the non-dominated-set weight dropped in the real-encoded protocols")
+mut("c07-mo-drops-trans-kwargs", "C07", "pybrops/breed/prot/sel/SubsetSelectionProtocol.py", "                mosoln.soln_obj, \n                **self.ndset_trans_kwargs", "                mosoln.soln_obj", "keyword arguments of the preference transformation not forwarded")
 
 
 def run_one(m, runs, tier_args=()):
